@@ -667,7 +667,11 @@ func TestVerif_C20_handle(t *testing.T) {
 	}
 	for i := 0; i < n || !c20All(cnt, must); i++ {
 		if i > 20*n {
-			t.Fatalf("declared buckets not reached: %v", cnt)
+			// judge what was collected first: when the implementation never produces an outcome
+			// any more (a malformed challenge no longer an error, say) the cases that should have
+			// produced it are the concrete failing inputs
+			t.Errorf("declared buckets not reached: %v", cnt)
+			break
 		}
 		c20Exchange(t, s, j, r, o, c20Run{identity: true}, known, count)
 	}
@@ -705,7 +709,8 @@ func TestVerif_C20_e2e(t *testing.T) {
 		}
 		for i := 0; i < n || !c20All(cnt, must); i++ {
 			if i > 20*n {
-				t.Fatalf("declared buckets not reached: %v", cnt)
+				t.Errorf("declared buckets not reached: %v", cnt) // the collected cases are judged below
+				break
 			}
 			c20Exchange(t, s, j, r, o, c20Run{h2: h2}, known, tagc)
 		}
